@@ -1555,6 +1555,15 @@ class Exec:
                     out.append(self.byte_val(x))
             else:
                 n = self.concretize(clen(c))
+                if n is None:
+                    # symbolic but short (e.g. a piece of an 8-byte probe): fork over its feasible lengths
+                    for _ in range(70):
+                        v = self.memo(lambda: self._model_value(clen(c)))
+                        if v is None:
+                            raise PathEnd()
+                        if self.branch(clen(c) == v):
+                            n = v
+                            break
                 if n is None or n > 64:
                     raise Unsupported('iterate long/symbolic chunk')
                 if isinstance(c, Zeros):
